@@ -78,7 +78,7 @@ func runSpec(s caseSpec) (fs []finding) {
 		var st searchStats
 		type pend struct{ oracle, what string }
 		var ps []pend
-		li := checkLife(s.History, dir, &st, func(oracle, what string) { ps = append(ps, pend{oracle, what}) })
+		li := checkLife(s.History, s.Ticks, dir, &st, func(oracle, what string) { ps = append(ps, pend{oracle, what}) })
 		for _, p := range ps {
 			add(lifeClass(li), p.oracle, "group", p.what)
 		}
@@ -169,11 +169,11 @@ func main() {
 	}
 
 	maxLen, fileLen := 3, 2
-	lifeDepth := 7
+	lifeDepth, tickDepth, maxTicks := 7, 4, 2
 	totalBudget = 50 * time.Second
 	if r.Thorough() {
 		maxLen, fileLen = 4, 3
-		lifeDepth = 9
+		lifeDepth, tickDepth, maxTicks = 9, 5, 3
 		totalBudget = 13 * time.Minute
 	}
 	if s := os.Getenv("VERIF_C15_BUDGET_S"); s != "" {
@@ -210,7 +210,7 @@ func main() {
 		phaseDone("group-write")
 		// 6. corrupted logs read through a real group
 		beginPhase(0.83)
-		livesPhase(lifeDepth)
+		livesPhase(lifeDepth, tickDepth, maxTicks)
 		phaseDone("lives")
 		beginPhase(1.0)
 		groupReadPhase(fileLogs)
